@@ -183,20 +183,36 @@ def evaluate(node):
         queries = [d for d, _ in lay.dirs] + [os.path.join(d, "nope") for d, k in lay.dirs] + \
                   [os.path.join(d, "nope", "deeper") for d, k in lay.dirs if k == "job"]
         before = canon.snapshot(root)
-        for rel in queries:
-            full = os.path.join(root, rel) if rel else root
-            exists = os.path.exists(full)
-            forms = [("abs", full, "/")]
-            if exists:
-                forms.append(("cwd=root", os.path.relpath(full, root), root))
-                forms.append(("cwd=parent", os.path.relpath(full, base), base))
-                forms.append(("cwd=self", None, full))
-            for form, arg, cwd in forms:
+        linked = {l[0] for l in lay.jobs if l[3]}  # symlinked job directories
+
+        def through_link(r):
+            return any(r == x or r.startswith(x + os.sep) for x in linked)
+        for rel0 in queries:
+            full0 = os.path.join(root, rel0) if rel0 else root
+            forms = [("abs", full0, "/", rel0)]
+            if os.path.exists(full0):
+                forms.append(("cwd=root", os.path.relpath(full0, root), root, rel0))
+                forms.append(("cwd=parent", os.path.relpath(full0, base), base, rel0))
+                forms.append(("cwd=self", None, full0, rel0))
+                forms.append(("cwd=self-dot", ".", full0, rel0))
+                if not through_link(rel0):
+                    parts = rel0.split(os.sep) if rel0 else []
+                    for k in range(1, len(parts)):  # every directory between the tree root and the query as working directory
+                        anc = os.sep.join(parts[:k])
+                        forms.append((f"cwd=ancestor{k}", os.path.relpath(full0, os.path.join(root, anc)), os.path.join(root, anc), rel0))
+                    if parts:  # the query spelled ".." from inside one of its sub-directories
+                        for sub, _ in lay.dirs:
+                            if os.path.dirname(sub) == rel0 and sub and not through_link(sub):
+                                forms.append(("cwd=child-dotdot", "..", os.path.join(root, sub), rel0))
+                                break
+            for form, arg, cwd, rel in forms:
+                full = os.path.join(root, rel) if rel else root
+                exists = os.path.exists(full)
                 os.chdir(cwd)
                 # ---- get_project, search and no search
                 for search in (True, False):
                     want = ref_get_project(lay, rel, search) if exists else None
-                    if form == "cwd=self" and any(l[0] == rel for l in lay.jobs if l[3]):
+                    if form.startswith("cwd=self") and any(l[0] == rel for l in lay.jobs if l[3]):
                         # os.getcwd() inside a symlinked job directory reports the link target
                         real = os.path.relpath(os.path.realpath(full), os.path.realpath(root))
                         want = ref_get_project(lay, real, search)
@@ -231,7 +247,7 @@ def evaluate(node):
                 if wantj is not None:
                     wp = os.path.relpath(os.path.realpath(os.path.join(root, wantj[1])), os.path.realpath(root))
                     wj = (wantj[0], "" if wp == "." else wp)
-                if form == "cwd=self" and wantj is not None and any(l[0] == rel for l in lay.jobs if l[3]):
+                if form.startswith("cwd=self") and wantj is not None and any(l[0] == rel for l in lay.jobs if l[3]):
                     # os.getcwd() inside a symlinked job directory reports the link target: the textual rule then
                     # resolves to the project that really holds the directory
                     real = os.path.relpath(os.path.realpath(full), os.path.realpath(root))
